@@ -355,7 +355,8 @@ func (e *c03Eng) doOp(i int, op c03Op) {
 		if e.crashed() {
 			return
 		}
-		if err := startNode(s, n, nil); err != nil {
+		crcBad := false
+		if err := startNode(s, n, &crcBad); err != nil {
 			if !e.crashed() {
 				violate(c, "reopen-failed", "clean close then open failed at op %d: %v", i, err)
 			}
@@ -368,6 +369,9 @@ func (e *c03Eng) doOp(i int, op c03Op) {
 			violate(c, "reopen-no-leader", "node did not become ready after clean reopen at op %d: %v", i, err)
 		}
 		c.Probe("clean_reopen")
+		if crcBad && !e.crashed() && !c.Failed() {
+			e.exitOnCRC(fmt.Sprintf("op%d", i))
+		}
 	case "run":
 		s.RunFor(time.Duration(op.N) * time.Millisecond)
 	}
@@ -519,19 +523,10 @@ func (e *c03Eng) recoverFromImage() {
 	}
 	if crcBad {
 		// rqlite's documented reaction: remove the fingerprint, exit, restart is safe
-		c.Probe("crc_bad_exit")
-		n.Store.NoSnapshotOnClose = true
-		s.Do("exit-on-crc", 300*time.Second, func() { n.Stop() })
-		removeFingerprint(n.Dir)
-		if err := startNode(s, n, &crcBad); err != nil {
-			violate(c, "restart-failed", "node does not open after CRC exit: %v", err)
+		if !e.exitOnCRC("after-crash") {
 			return
 		}
 		fast = false
-		if err := settle(s, n); err != nil {
-			violate(c, "restart-no-leader", "node not ready after CRC exit: %v", err)
-			return
-		}
 	}
 	if fast {
 		c.Probe("restart_fast_path")
@@ -622,6 +617,28 @@ func (e *c03Eng) aftermath() {
 	e.cleanReopenCheck("aftermath", false)
 }
 
+// exitOnCRC models rqlite's reaction to a fingerprint whose CRC32 does not
+// match the database at start-up: remove the fingerprint, exit; the operator
+// restarts ("restarting is safe").
+func (e *c03Eng) exitOnCRC(phase string) bool {
+	c, s, n := e.c, e.s, e.n
+	c.Probe("crc_bad_exit")
+	logf(c, "%s: start-up CRC check failed, modelling exit + restart", phase)
+	n.Store.NoSnapshotOnClose = true
+	s.Do("exit-on-crc", 300*time.Second, func() { n.Stop() })
+	removeFingerprint(n.Dir)
+	crcBad := false
+	if err := startNode(s, n, &crcBad); err != nil {
+		violate(c, "restart-failed", "%s: node does not open after CRC exit: %v", phase, err)
+		return false
+	}
+	if err := settle(s, n); err != nil {
+		violate(c, "restart-no-leader", "%s: node not ready after CRC exit: %v", phase, err)
+		return false
+	}
+	return true
+}
+
 // cleanReopenCheck closes cleanly, reopens on the natural path, checks the
 // model, then reopens with the fingerprint removed and checks again.
 func (e *c03Eng) cleanReopenCheck(phase string, snapOnClose bool) {
@@ -635,7 +652,8 @@ func (e *c03Eng) cleanReopenCheck(phase string, snapOnClose bool) {
 			}
 		}
 		sk := storeStat("num_restores_start_skipped")
-		if err := startNode(s, n, nil); err != nil {
+		crcBad := false
+		if err := startNode(s, n, &crcBad); err != nil {
 			violate(c, "reopen-failed", "%s: open after clean close failed (pass %d): %v", phase, pass, err)
 			return
 		}
@@ -644,6 +662,9 @@ func (e *c03Eng) cleanReopenCheck(phase string, snapOnClose bool) {
 		}
 		if err := settle(s, n); err != nil {
 			violate(c, "reopen-no-leader", "%s: not ready after clean reopen (pass %d): %v", phase, pass, err)
+			return
+		}
+		if crcBad && !e.exitOnCRC(phase) {
 			return
 		}
 		if _, ok := e.checkState(fmt.Sprintf("%s-reopen-pass%d", phase, pass)); !ok {
